@@ -295,6 +295,7 @@ func c14(p *model.Prog, r *report.Result) {
 	c14r13(p, r)
 	w5HlsSweep(p, r, "C14.R14")
 	w5HlsAuthName(p, r, "C14.R15")
+	w6KickPrefixes(p, r, "C14.R16")
 }
 
 // c14r6 is defined in c14_taint.go once built; until then it records that R6 is not decided.
